@@ -1,9 +1,49 @@
-(* C11 — theorems are added below as the proofs are completed; see DESIGN.md *)
-From Coq Require Import List Arith Bool.
+(* C11 — 2-D group analysis equals per-signal analysis, in order.
+   Model: Model/Group.v.  cf : K -> Sg -> T is compute_features with an option set (abstract);
+   Pool.imap is a reorder buffer over an ARBITRARY completion order sigma.  n_jobs and the
+   progress option do not occur in the model's right-hand sides at all.  No axioms. *)
+From Coq Require Import List Arith Bool Permutation.
 Import ListNotations.
-From ByC Require Import Base.Result Model.Group.
+From ByC Require Import Base.Result Model.Group Proofs.Group.
 
-Theorem C11_placeholder_unordered_is_identity_schedule_only : forall (A R : Type) (f : A -> R) xs d,
-  pool_imap_unordered (seq 0 (length xs)) f xs d = map (fun i => f (nth i xs d)) (seq 0 (length xs)).
-Proof. reflexivity. Qed.
-Print Assumptions C11_placeholder_unordered_is_identity_schedule_only.
+(* the pool returns results in submission order for every completion order *)
+Theorem C11_pool_is_order_preserving : forall (A R : Type) (sigma : list nat) (f : A -> R) xs d,
+  Permutation sigma (seq 0 (length xs)) -> pool_imap sigma f xs d = map f xs.
+Proof. exact @pool_imap_perm. Qed.
+Print Assumptions C11_pool_is_order_preserving.
+
+Theorem C11_result_independent_of_completion_order :
+  forall (A R : Type) (sigma1 sigma2 : list nat) (f : A -> R) (xs : list A) (d : A),
+  Permutation sigma1 (seq 0 (length xs)) -> Permutation sigma2 (seq 0 (length xs)) ->
+  pool_imap sigma1 f xs d = pool_imap sigma2 f xs d.
+Proof. exact @pool_imap_order_independent. Qed.
+Print Assumptions C11_result_independent_of_completion_order.
+
+(* position i holds the analysis of row i with the option set for row i *)
+Theorem C11_position_i_is_row_i : forall (K Sg T : Type) (cf : K -> Sg -> T) (dK : K) (dS : Sg) (dT : T)
+  (sigma : list nat) (spec : kwspec) (sigs : list Sg) (i : nat),
+  Permutation sigma (seq 0 (length sigs)) -> i < length sigs ->
+  nth i (group2d_axis0 cf dK dS sigma spec sigs) dT = cf (kw_for dK spec i) (nth i sigs dS).
+Proof. exact @group2d_axis0_nth. Qed.
+Print Assumptions C11_position_i_is_row_i.
+
+(* option handling: a dict (or None) is shared by all rows; a list of >= 2 supplies one per row *)
+Theorem C11_shared_options : forall (K : Type) (dK k : K) i, kw_for dK (KwOne k) i = k.
+Proof. exact @kw_for_shared. Qed.
+Print Assumptions C11_shared_options.
+
+Theorem C11_per_row_options : forall (K : Type) (dK : K) l i, 2 <= length l -> kw_for dK (KwList l) i = nth i l dK.
+Proof. exact @kw_for_list. Qed.
+Print Assumptions C11_per_row_options.
+
+(* BycycleGroup.models mirror df_features and sigs position by position *)
+Theorem C11_models_mirror : forall (Sg T : Type) (dS : Sg) (dT : T) (dfs : list T) (sigs : list Sg) (i : nat),
+  i < length sigs -> nth i (models2d dS dT dfs sigs) (dT, dS) = (nth i dfs dT, nth i sigs dS).
+Proof. exact @models2d_spec. Qed.
+Print Assumptions C11_models_mirror.
+
+(* Legacy: an unordered pool (imap_unordered) does NOT have the property *)
+Theorem C11_unordered_pool_refuted : exists (sigma : list nat) (xs : list nat),
+  Permutation sigma (seq 0 (length xs)) /\ pool_imap_unordered sigma (fun x => x) xs 0 <> map (fun x => x) xs.
+Proof. exact pool_imap_unordered_refuted. Qed.
+Print Assumptions C11_unordered_pool_refuted.
